@@ -194,6 +194,15 @@ def run(ctx):
     ctx.instance(R4, "dead peer cut within 3P", total[0] <= 3 and (total[0] < 3 or total[1] <= 0),
                  f"a silent peer is disconnected after {fmt_lin(total)} at the earliest: more than three heartbeat intervals", loc(n3))
 
+    # the outstanding id doubles as the send time of the TestRequest: it must be on the watchdog's clock (seconds of time.time(), unscaled)
+    tval = unparse(a.ast.value)
+    clock = {unparse(c.left.left) for c in walk_no_nested(hbt) if isinstance(c, ast.Compare) and isinstance(c.left, ast.BinOp) and isinstance(c.left.op, ast.Sub)
+             and unparse(c.left.right) == "self._test_req_id"}
+    tm_defs = sorted({unparse(n.value) for n in walk_no_nested(hbt) if isinstance(n, ast.Assign) and isinstance(n.targets[0], ast.Name) and n.targets[0].id in clock})
+    ctx.instance(R4, "send_test_req[outstanding id = int(time.time())]", tval in ("int(time.time())", "time.time()") and tm_defs == ["time.time()"],
+                 f"the outstanding TestReqID is `{tval}` while the watchdog subtracts it from `{tm_defs}` and compares with multiples of the heartbeat period in seconds: "
+                 "with another unit the TestRequest time-out never (or at once) expires", loc(a.ast))
+
     # ---- rule 5 bookkeeping
     fin = repo.func("AsyncFIXConnection._finalize_message")
     fg = CFG(fin)
